@@ -199,11 +199,34 @@ func (p *party) SetShareData(shareData []byte) error {
 	if err != nil {
 		return fmt.Errorf("failed deserializing shares: %w", err)
 	}
+	if localSaveData.ECDSAPub == nil {
+		return fmt.Errorf("failed deserializing shares: the public key is missing")
+	}
 	localSaveData.ECDSAPub.SetCurve(elliptic.P256())
 	for _, xj := range localSaveData.BigXj {
+		if xj == nil {
+			return fmt.Errorf("failed deserializing shares: the public key share of a party is missing")
+		}
 		xj.SetCurve(elliptic.P256())
 	}
 	p.shareData = &localSaveData
+	return nil
+}
+
+// shareDataCoversParties checks that the stored key share was generated among (a superset of) the signing parties:
+// the library cannot sign with a share in which a signing party does not appear.
+func (p *party) shareDataCoversParties() error {
+	known := make(map[string]struct{}, len(p.shareData.Ks))
+	for _, k := range p.shareData.Ks {
+		if k != nil {
+			known[k.String()] = struct{}{}
+		}
+	}
+	for _, id := range p.params.Parties().IDs() {
+		if _, exists := known[id.KeyInt().String()]; !exists {
+			return fmt.Errorf("party %s does not appear in the stored key share", id.Id)
+		}
+	}
 	return nil
 }
 
@@ -234,6 +257,10 @@ func (p *party) Sign(ctx context.Context, msgHash []byte) ([]byte, error) {
 	defer p.logger.Debugf("Finished signing")
 
 	defer close(p.closeChan)
+
+	if err := p.shareDataCoversParties(); err != nil {
+		return nil, err
+	}
 
 	end := make(chan *common.SignatureData, 1)
 
